@@ -457,7 +457,9 @@ def r16(text, arg, what):
     """name the ghost iterator of `for _ in A .. B` loops (Verus annotation syntax `for _ in it: A .. B`)"""
     m = rp.mask(text)
     out, last, cnt = [], 0, 0
-    for mm in re.finditer(r'\bfor\s+_\s+in\s+', m):
+    # R16:all names the iterator of every `for <pattern> in` loop, in source order
+    rx = r'\bfor\s+(?:_|\w+)\s+in\s+' if arg == 'all' else r'\bfor\s+_\s+in\s+'
+    for mm in re.finditer(rx, m):
         out.append(text[last:mm.end()])
         cnt += 1
         out.append(f'verif_it{cnt}: ')
